@@ -91,6 +91,59 @@ def cache_key_rule(ctx: Ctx, rule: str) -> None:
                    key=f'{f.qual}|cache-key[{cname}]')
 
 
+def frozen_rule(ctx: Ctx, rule: str, module_prefix: str = 'panqec') -> None:
+    """No store through a value obtained from an lru_cache/cache function (in modules with the prefix)."""
+    E = effects(ctx.model)
+    cached = [f for f in E.funcs.values() if f.is_cached]
+    consumers = []
+    for fi in E.funcs.values():
+        if not fi.mi.name.startswith(module_prefix):
+            continue
+        uses = [c for c, targets, _ in fi.calls if any(t.is_cached for t in targets)]
+        frozen_ret = [c for c, targets, _ in fi.calls if any('FROZEN' in t.ret_roots and not t.is_cached for t in targets)]
+        if uses or frozen_ret:
+            consumers.append((fi, uses + frozen_ret))
+    for fi, uses in sorted(consumers, key=lambda x: x[0].qual):
+        bad = [s for s in fi.stores if 'FROZEN' in s.roots]
+        ctx.ob(rule, fi.site if not bad else f'{bad[0].func.mi.relpath}:{getattr(bad[0].node, "lineno", 0)}',
+               f'{fi.qual}: values handed out by a memoised function are only read', not bad,
+               f'{bad[0].how}: {norm_stmt(bad[0].node)} writes into an object shared by every caller of the memoised '
+               f'function ({", ".join(sorted({t.qual for c, ts, _ in fi.calls for t in ts if t.is_cached})) or "via a wrapper"})'
+               if bad else '', key=f'{fi.qual}|frozen')
+    done = {c[0] for c in consumers}
+    for fi in E.funcs.values():
+        if fi in done or not fi.mi.name.startswith(module_prefix):
+            continue
+        for s in fi.stores:
+            if 'FROZEN' in s.roots:
+                ctx.ob(rule, f'{fi.mi.relpath}:{getattr(s.node, "lineno", 0)}',
+                       f'{fi.qual}: store through a value handed out by a memoised function', False,
+                       f'{s.how}: {norm_stmt(s.node)}', key=f'{fi.qual}|frozen')
+    return cached
+
+
+def code_state_rule(ctx: Ctx, rule: str) -> None:
+    """Derived data of a code object are written only by their own guarded initialisation (and by __init__/deform):
+    no other method or property of the StabilizerCode family stores through self."""
+    m = ctx.model
+    E = effects(m)
+    base = m.cls('StabilizerCode')
+    n = 0
+    for c in [base] + sorted(m.subclasses(base), key=lambda c: c.name):
+        for name, fn in sorted(c.methods.items()):
+            if name in ('__init__', 'deform'):
+                continue
+            fi = E.by_node[fn]
+            bad = [w for w in fi.self_writes if not w.guarded]
+            n += 1
+            ctx.ob(rule, fi.site if not bad else f'{bad[0].func.mi.relpath}:{getattr(bad[0].node, "lineno", 0)}',
+                   f'{c.name}.{name} leaves the derived data of the code untouched', not bad,
+                   (f'{bad[0].how}: {norm_stmt(bad[0].node)} (in {bad[0].func.qual}) modifies self.{bad[0].attr}, which is not '
+                    f'the guarded initialisation of that attribute: matrices / logicals cached on the code change '
+                    f'after they have been handed out') if bad else '', key=f'{c.name}.{name}|code-state')
+    ctx.need(n >= 100, rule, 'panqec/codes', f'only {n} code methods analysed')
+
+
 def run(ctx: Ctx) -> None:
     ctx.rule('R06.1', 'decode never stores through its syndrome argument (directly or via callees)', floor=9)
     ctx.rule('R06.2', 'values handed out by the cached probability_distribution are never stored through', floor=5)
@@ -171,26 +224,7 @@ def run(ctx: Ctx) -> None:
     cached = [f for f in E.funcs.values() if f.is_cached]
     ctx.need(any(f.fn.name == 'probability_distribution' for f in cached), 'R06.2', 'panqec/error_models',
              'positive control failed: the lru_cache on probability_distribution was not recognised')
-    consumers = []
-    for fi in E.funcs.values():
-        uses = [c for c, targets, _ in fi.calls if any(t.is_cached for t in targets)]
-        frozen_ret = [c for c, targets, _ in fi.calls if any('FROZEN' in t.ret_roots and not t.is_cached for t in targets)]
-        if uses or frozen_ret:
-            consumers.append((fi, uses + frozen_ret))
-    for fi, uses in sorted(consumers, key=lambda x: x[0].qual):
-        bad = [s for s in fi.stores if 'FROZEN' in s.roots]
-        ctx.ob('R06.2', fi.site if not bad else f'{bad[0].func.mi.relpath}:{getattr(bad[0].node, "lineno", 0)}',
-               f'{fi.qual}: cached probability arrays are only read', not bad,
-               f'{bad[0].how}: {norm_stmt(bad[0].node)} writes into an array shared by every caller of the cached '
-               f'function' if bad else '', key=f'{fi.qual}|frozen')
-    for fi in E.funcs.values():
-        if fi in [c[0] for c in consumers]:
-            continue
-        for s in fi.stores:
-            if 'FROZEN' in s.roots:
-                ctx.ob('R06.2', f'{fi.mi.relpath}:{getattr(s.node, "lineno", 0)}',
-                       f'{fi.qual}: store through a cached probability array', False,
-                       f'{s.how}: {norm_stmt(s.node)}', key=f'{fi.qual}|frozen')
+    frozen_rule(ctx, 'R06.2')
     ctx.extra['cached_functions'] = [f.qual for f in cached]
     cache_key_rule(ctx, 'R06.2')
 
